@@ -1,1 +1,39 @@
-From TB Require Import Base.
+(** C14 - resize pre-flight: short files zero-extended; any over-long file aborts first.  Statements only.
+    The pre-flight is evaluated against an arbitrary answer function [ans] for the probes. *)
+From TB Require Import Base Decimal BencodeModel TorrentModel TorrentProofs PathModel FsModel SolverModel FinderModel RunModel
+                       SolverProofs RunProofs FsProofs FaultProofs PreludeProofs TableProofs Generated GeneratedObligations.
+Local Open Scope N_scope.
+
+(** If any existing non-padding export file is longer than declared - wherever it sits in the list -
+    the pre-flight fails having issued no mutating operation at all. *)
+Theorem C14_overlong_aborts_before_any_change ans mutok es k e n id :
+  In e es -> e_pad e = false -> ans (e_target e) w1 = PFile n id -> e_len e < n ->
+  run_prelude ans mutok (resize_prog es k) = ([], Some Fault).
+Proof. exact (resize_abort_no_mutation ans mutok es k e n id). Qed.
+
+(** Otherwise the second pass extends exactly the existing shorter files, each to exactly its
+    declared length, in list order, and then continues. *)
+Theorem C14_extends_exactly_the_shorter_files ans mutok es k : (forall o, mutok o = true) -> pass2_clean ans es ->
+  fst (run_prelude ans mutok (resize_pass2 es k)) = expected_extensions ans es ++ fst (run_prelude ans mutok k) /\
+  snd (run_prelude ans mutok (resize_pass2 es k)) = snd (run_prelude ans mutok k).
+Proof. exact (resize_extends_exactly ans mutok es k). Qed.
+
+(** [set_len] extends with zeros and keeps the existing bytes. *)
+Theorem C14_extension_keeps_bytes b n : (length b <= n)%nat -> resize b n = b ++ repeat 0 (n - length b).
+Proof. intros Hl. unfold resize. now rewrite firstn_all2. Qed.
+
+(** Without the flag the prelude issues no mutating operation; lengths then change only through
+    a piece's [SetLen declared], which a piece issues only after its hash matched (C01). *)
+Theorem C14_no_flag_no_prelude_change ans mutok scans export es k : (forall a, fst (run_prelude ans mutok (k a)) = []) ->
+  fst (run_prelude ans mutok (prelude_prog scans export false es k)) = [].
+Proof. exact (noresize_prelude_no_ops ans mutok scans export es k). Qed.
+
+(** The pre-flight opens: probe pass read-only, second pass read-write without create/truncate. *)
+Theorem C14_open_modes : w1 = false /\ w2 = true /\ of_create resize_fix_open = false /\ of_truncate resize_fix_open = false.
+Proof. repeat split; reflexivity. Qed.
+
+Print Assumptions C14_overlong_aborts_before_any_change.
+Print Assumptions C14_extends_exactly_the_shorter_files.
+Print Assumptions C14_extension_keeps_bytes.
+Print Assumptions C14_no_flag_no_prelude_change.
+Print Assumptions C14_open_modes.
